@@ -46,6 +46,14 @@ def check(ctx, report):
     flags_and_timestamps(ctx, report, R4='C06.R7', R5='C06.R7')
     report.floor('C06.R7', 100, 'tabulated flag words and instants')
     dispatch_sides(ctx, report)
+    # the two signalling cipher suites of a client hello: what the parser folds into flags and the composer unfolds, evaluated over
+    # every short suite sequence (shared with C05.R3 / C01.R10)
+    report.rule('C06.R9', 'client hello: fallback and renegotiation SCSV are written exactly for the flags that are set, and read back as those flags')
+    from .c05 import scsv_tabulation
+    hello = ctx.model.try_cls('TlsHandshakeClientHello')
+    if hello is not None and hello.methods.get('_parse') is not None and hello.methods.get('compose') is not None:
+        if not scsv_tabulation(ctx, report, hello, hello.methods['_parse'], hello.methods['compose'], RULE='C06.R9'):
+            report.undecided.append('C06.R9: the client hello left the subset the tabulation understands (C05.R3 reads its shape)')
     report.floor('C06.R1', 150, 'layout comparisons')
     report.floor('C06.R2', 100, 'registry members')
 
